@@ -269,3 +269,16 @@ Example C18_board_collection_instance :
   /\ call FUEL ex_ctl "BMP" "set_power" [[("cabinet", VInt 0); ("frame", VInt 0)]] [VBool true] [("board", VSeq [2; 0; 5])]
   = ([MkWire 0 0 (VInt 0) (VInt 0) (VInt 0) (VInt SCP_power) [] [(FBit, 1%nat, 0, VSeq [2; 0; 5])]], None).
 Proof. exact ex_board_collection_instance. Qed.
+
+(* an application block left because the machine refused a command (SCPError) still stops its application,
+   and so does every enclosing one (general statement: C18_application_stop, for every block body) *)
+Example C18_refused_instance :
+  run_ops ex_ctl "MC"
+    [ OTry [ OApp [VInt 17] [] [ OApp [VInt 30] [] [ OCallRefused "sdram_free" [VInt 4; VInt 1; VInt 2] [] ] false ] false ] ]
+    [[("app_id", VInt 66)]]
+  = ([EvCall "sdram_free" ([MkWire 1 0 (VInt 1) (VInt 2) (VInt 0) (VInt SCP_alloc_free)
+                                   [(0%nat, 0, 255, Alloc_free_sdram_by_ptr)] []], Some ScpErr);
+      EvStop ([stop_wire 3 (VInt 30)], None);
+      EvStop ([stop_wire 3 (VInt 17)], None)],
+     [[("app_id", VInt 66)]], false).
+Proof. exact ex_refused_instance. Qed.
